@@ -171,7 +171,8 @@ add("C17", "fixed", "history-dependent:date-equal-values:filter:date", "the date
     "after {{ false | date: '%H:%M' }}; a +05:00 datetime printed another zone's hour after an equal datetime had been formatted",
     [c17([(False, "%H:%M")], (0.0, "%H:%M")), c17([(1, "%Y")], (1.0, "%Y")), c17([(_b.astimezone(_dt.timezone(_dt.timedelta(hours=-8))), "<%H>")], (_b.astimezone(_dt.timezone(_dt.timedelta(hours=5))), "<%H>"))], "52d3aa2")
 add("C17", "fixed", "history-dependent:date-markup-format:filter:date", "with autoescape on, a str format and an equal Markup format shared a memo entry, so the result's safe/unsafe marking depended on which was rendered first",
-    [], "52d3aa2")
+    [c17([(86400, __import__("markupsafe").Markup("<%Y>"), {"autoescape": True})], (86400, "<%Y>", {"autoescape": True}), aim="date-markup-format"),
+     c17([(86400, "<%Y>", {"autoescape": True})], (86400, __import__("markupsafe").Markup("<%Y>"), {"autoescape": True}), aim="date-markup-format")], "52d3aa2")
 
 # ----------------------------------------------------------------------------- fixed by earlier commits (pinned by the checks' own hand-written cases; no separate witness format)
 add("C06", "fixed", "length-not-carried:tablerow|include-for|render-for", "tablerow, include ... for and render ... for checked their own length against loop_iteration_limit but did not carry it into nested loops", [], "25baed3")
